@@ -641,7 +641,9 @@ impl Sim {
         self.stack.last().map(|b| b.id).unwrap_or(0)
     }
     fn wallet_panic(&mut self, op: String, msg: String, ctx: &str) {
-        let site = if msg.contains("subtract with overflow") {
+        let site = if ctx == "pending" {
+            10
+        } else if msg.contains("subtract with overflow") {
             3
         } else if msg.contains("add with overflow") {
             if ctx == "stake" {
@@ -651,8 +653,6 @@ impl Sim {
             }
         } else if msg.contains("left != right") {
             1
-        } else if ctx == "pending" {
-            10
         } else if msg.contains("slip should be here") || (ctx == "stake" && msg.contains("None")) {
             5
         } else if msg.contains("unwrap()") && msg.contains("None") {
@@ -1333,7 +1333,19 @@ async fn case_node(rng: &mut Rng, dbg: bool, gp: u64, extra_len: u64) -> (Rec, V
     while let Some(b) = next.take() {
         let class = node.add_block(b.clone()).await;
         if class != world::AddClass::OnChain {
-            rec.notes.push(format!("block {} was not accepted on chain: {:?}", b.id, class));
+            let txs: Vec<String> = b
+                .transactions
+                .iter()
+                .map(|t| {
+                    format!(
+                        "{:?} from {:?} to {:?}",
+                        t.transaction_type,
+                        t.from.iter().map(|s| (s.public_key[32], s.block_id, s.tx_ordinal, s.slip_index, s.amount)).collect::<Vec<_>>(),
+                        t.to.iter().map(|s| (s.public_key[32], s.amount, s.slip_type as u8)).collect::<Vec<_>>()
+                    )
+                })
+                .collect();
+            rec.notes.push(format!("block {} was not accepted on chain: {:?} txs {:?}", b.id, class, txs));
             break;
         }
         // model: wind, then the wallet's delete_block of the purged block
@@ -1399,7 +1411,7 @@ async fn case_node(rng: &mut Rng, dbg: bool, gp: u64, extra_len: u64) -> (Rec, V
         let ts = b.timestamp + 120_000;
         let mut txs: Vec<Transaction> = vec![];
         let fund = |pk: &SaitoPublicKey, utxo: &UtxoSet| -> Vec<SaitoUTXOSetKey> {
-            let low = latest.saturating_sub(gp) + 2;
+            let low = (latest + 1).saturating_sub(gp);
             sorted_keys(utxo, |k| k[0..33] == *pk && key_bid(k) >= low && key_amt(k) > 10_000)
         };
         for (pk, sk) in [(pk2, sk2), (pk3, sk3)] {
@@ -1423,6 +1435,9 @@ async fn case_node(rng: &mut Rng, dbg: bool, gp: u64, extra_len: u64) -> (Rec, V
                 }
             }
         }
+        // inputs that the next block rebroadcasts automatically must not be spent in it as well
+        let low_next = (latest + 1).saturating_sub(gp);
+        built.retain(|t| t.from.iter().all(|s| s.amount == 0 || s.block_id >= low_next));
         if !built.is_empty() && rng.chance(2, 3) {
             let j = rng.below(built.len() as u64) as usize;
             let mut t = built.remove(j);
@@ -1437,7 +1452,8 @@ async fn case_node(rng: &mut Rng, dbg: bool, gp: u64, extra_len: u64) -> (Rec, V
                 txs.push(world::make_tx(&[input.clone()], &[(pk2, input.amount - 5), (me, 5)], &sk2, ts));
             }
         }
-        match make_block(&node, b.hash, ts, txs, i % 2 == 1, i).await {
+        let with_gt = i % 2 == 1 || txs.is_empty();
+        match make_block(&node, b.hash, ts, txs, with_gt, i).await {
             Ok(nb) => next = Some(nb),
             Err(e) => {
                 rec.notes.push(format!("make_block failed: {}", e));
